@@ -168,3 +168,50 @@ def register(reg):
       "getDefaultForType/extractTypeFromColType (TypeScript is not executed); defaults compared as cell values "
       "(None=null, 0==0.0, inf==Number.POSITIVE_INFINITY); the SQLite text of _defaultValues is out of scope.",
       "Lean 4 proof by regeneration (decide +kernel on generated data + general soundness lemmas) + differential correspondence")
+
+  reg("C01", "proof",
+      "The 13 doc actions of docactions.py, the undo action(s) each appends, ActionSummary and the calc flush are "
+      "modelled (GristModel/Doc.lean, Engine.lean). Proved for ALL documents / actions: every doc action preserves "
+      "well-formedness and cell normal form (docAction_WF_partial, docAction_Normal); replaying the undo of ANY single "
+      "doc action restores the document observationally (docAction_undo_partial: all 11 constructors; unconditional "
+      "for bulkAdd/addColumn/renameColumn/addTable/renameTable); congruence under observational equality "
+      "(docAction_congr); and for any list of doc actions the concatenated undo list replayed in reverse restores the "
+      "starting document (runActs_undo_partial, runActs_undo_safe) = stage (i) of DESIGN A.1 (doc-action words). "
+      "Partial: words with calc deltas (formula results restored by the ActionSummary flush) are covered by the "
+      "correspondence only; the named side conditions (undoExact: ReplaceTableData / RemoveColumn of non-default "
+      "formula columns, ModifyColumn type changes) are exactly where the engine relies on that flush. "
+      "bulkUpdate_undo_needs_Normal is a machine-checked counterexample showing the Normal hypothesis is necessary. "
+      "Every bundle (incl. undo/redo bundles) of every generated history is replayed through the model step by step: "
+      "model stored/undo/direct lists and document must equal the engine's; the direct oracle undoes every bundle on "
+      "the real engine and compares all tables (metadata included).",
+      "user formulas = deterministic programs over cells read; private/virtual columns not modelled; documents "
+      "compared by canonical encodings; why the engine emits a particular step word (useractions.py) is not modelled, "
+      "the word is taken from the run (run-time wrappers).",
+      "Lean 4 theorems (undo algebra of doc actions, list induction) + step-word refinement check + direct oracle")
+
+  reg("C02", "proof",
+      "On the same EngineModel: stored_faithful_docwords (for every word of doc steps, replaying the emitted stored "
+      "actions from the starting document gives exactly the engine-model document), docAction_doc_indep_summary, the "
+      "ActionSummary algebra (addChange keeps the first `before` and the last `after`; presence maps of added / "
+      "removed rows), calc_word_emits / stored_faithful_calc_word (a word of calc deltas + finish emits one "
+      "BulkUpdateRecord carrying exactly the rows whose merged before/after differ and their last values, and replaying "
+      "it reproduces the document), stored_faithful_calc_fixed_schema (interleaved record actions on other tables). "
+      "Partial: calc deltas interleaved with schema actions/renames/removals on the same table are validated by the "
+      "correspondence only. Tie: an independent replica session of the Lean model and an independent Python "
+      "interpreter see ONLY the stored lists of every bundle since InitNewDoc and must equal engine.fetch_table of "
+      "every table; every calc delta's `before` must equal the model's cell (no change without an action).",
+      "as C01; hypotheses of the calc theorems (hstrict/hnorm/hbefore) are stated in the theorems and correspond to "
+      "the int/float drift known finding.",
+      "Lean 4 theorems (stored replay = document) + replica refinement check + independent interpreter oracle")
+
+  reg("C31", "proof",
+      "direct_parallel_step / _run / _rollback: stored and direct stay the same length under every step kind incl. "
+      "rollback and finish; flush_marks_nondirect(_finish/_flushcol): everything a calc flush appends is marked "
+      "non-direct; doc_step_marks_given_flag; direct_true_only_from_direct_doc_step, direct_actions_are_direct_doc_steps, "
+      "direct_true_count: a `true` flag sits exactly on actions appended by a doc step performed at indirection "
+      "level 0. Tie: the model's direct list equals the engine's for every bundle. Search: independent classification "
+      "of every stored action of record-edit bundles (formula-only updates, summary-table row maintenance and column "
+      "conversion while entering data must be non-direct; the requested edit on a user table must be direct).",
+      "which code runs inside `with indirect_actions()` (useractions/summary/docmodel) is observed through the "
+      "recorded flag of each doc step, not modelled.",
+      "Lean 4 invariant over step words + refinement check + independent classification oracle")
